@@ -172,6 +172,14 @@ fn probes() -> Vec<(&'static str, Case)> {
         ("reused-name", Case { schema: s2.clone(), stmts: vec![Stmt::Begin, sp("a"), ins(1, 1), sp("a"), ins(2, 2), rb("a"), Stmt::Release("a".into()), rb("a"), Stmt::Release("a".into()), rb("a"), Stmt::Commit] }),
         ("duplicate-rows-first-match", Case { schema: snp.clone(), stmts: vec![ins(1, 1), ins(2, 2), Stmt::Begin, sp("a"), ins(1, 1), ins(2, 2), ins(1, 1), rb("a"), Stmt::Commit] }),
         ("outside-transaction", Case { schema: s2.clone(), stmts: vec![sp("a"), rb("a"), Stmt::Release("a".into()), Stmt::Begin, rb("zz"), Stmt::Release("zz".into()), Stmt::Rollback] }),
+        // three / four live savepoints, RELEASE of each position, then rollbacks to the survivors in
+        // both orders: the stack must stay ordered oldest → newest whatever is released
+        ("release-bottom-of-three", Case { schema: s2.clone(), stmts: vec![Stmt::Begin, sp("a"), ins(1, 1), sp("b"), ins(2, 2), sp("c"), ins(3, 3), Stmt::Release("a".into()), rb("c"), ins(4, 4), rb("b"), rb("c"), Stmt::Commit] }),
+        ("release-bottom-of-three-then-middle", Case { schema: s2.clone(), stmts: vec![Stmt::Begin, sp("a"), ins(1, 1), sp("b"), ins(2, 2), sp("c"), ins(3, 3), Stmt::Release("a".into()), rb("b"), ins(5, 5), ins(6, 6), rb("c"), rb("b"), Stmt::Commit] }),
+        ("release-middle-of-three", Case { schema: s2.clone(), stmts: vec![Stmt::Begin, sp("a"), ins(1, 1), sp("b"), ins(2, 2), sp("c"), ins(3, 3), Stmt::Release("b".into()), rb("c"), ins(4, 4), rb("a"), rb("c"), rb("a"), Stmt::Commit] }),
+        ("release-top-of-three", Case { schema: s2.clone(), stmts: vec![Stmt::Begin, sp("a"), ins(1, 1), sp("b"), ins(2, 2), sp("c"), ins(3, 3), Stmt::Release("c".into()), rb("b"), ins(4, 4), rb("a"), rb("b"), Stmt::Commit] }),
+        ("release-second-of-four", Case { schema: s2.clone(), stmts: vec![Stmt::Begin, sp("a"), ins(1, 1), sp("b"), ins(2, 2), sp("c"), ins(3, 3), sp("d"), ins(4, 4), Stmt::Release("b".into()), rb("d"), ins(5, 5), rb("c"), ins(6, 6), rb("a"), rb("c"), Stmt::Commit] }),
+        ("release-first-of-four", Case { schema: s2.clone(), stmts: vec![Stmt::Begin, sp("a"), ins(1, 1), sp("b"), ins(2, 2), sp("c"), ins(3, 3), sp("d"), ins(4, 4), Stmt::Release("a".into()), rb("c"), ins(5, 5), rb("b"), rb("d"), Stmt::Commit] }),
         // recorded finding, reproduced on every run
         ("delete-after-savepoint (known finding)", Case { schema: s2.clone(), stmts: vec![ins(1, 1), ins(2, 2), Stmt::Begin, sp("a"), Stmt::Delete(Pred::Cmp(0, "=", v(1))), rb("a")] }),
         ("update-after-savepoint (known finding)", Case { schema: s2.clone(), stmts: vec![ins(1, 1), Stmt::Begin, sp("a"), Stmt::Update(vec![(1, SetE::Const(v(9)))], Pred::All), rb("a")] }),
